@@ -39,7 +39,7 @@ class SequenceSet(Parseable[Sequence[_SeqElem]]):
 
     """
 
-    _num_pattern = re.compile(br'[1-9]\d*')
+    _num_pattern = re.compile(br'[1-9]\d{0,19}')
     _max = MaxValue()
 
     def __init__(self, sequences: Sequence[_SeqElem],
